@@ -1,7 +1,7 @@
 (** C10, part 2: the invariant is preserved by every [Script.step], hence holds after every history. *)
 From Coq Require Import Lia ZArith.
 From Hoot Require Import Base Chunk Body Httparse Parser Url Request Call Flow Script.
-From Hoot.proofs Require Import BytesLemmas Reasons C10_proofs.
+From Hoot.proofs Require Import BytesLemmas Reasons AfterErr C10_proofs.
 Open Scope N_scope.
 
 Lemma Inv_with_flow s g t f' : Inv s g -> flow_inv g f' -> Inv (with_flow s t f') g.
@@ -118,13 +118,22 @@ Proof.
     destruct track; cbn [fst]; (eapply Inv_flow; [exact Hi|reflexivity|reflexivity|reflexivity|exact Hf']).
 Qed.
 
+(** A failed read only moves the decoder (proofs/AfterErr.v): reasons and request are untouched. *)
+Lemma recv_body_after_err_keeps f win cap : keeps f (recv_body_after_err f win cap).
+Proof.
+  split; [apply recv_body_after_err_reasons|].
+  unfold freq, creq. rewrite recv_body_after_err_req. reflexivity.
+Qed.
+
 Lemma do_read_inv s g f win cap track :
   Inv s g -> s_obj s = ObFlow TRecvBody f -> Inv (fst (do_read s f win cap track)) g.
 Proof.
   intros Hi Ho. pose proof (proj1 Hi _ f Ho) as Hf. unfold do_read.
   destruct (recv_body_read f win cap) as [[[f' i] o]|e|p] eqn:E; cbn [fst]; try exact Hi.
-  apply recv_body_read_keeps in E. pose proof (flow_inv_keeps g f f' Hf E) as Hf'.
-  destruct track; cbn [fst]; (eapply Inv_flow; [exact Hi|reflexivity|reflexivity|reflexivity|exact Hf']).
+  - apply recv_body_read_keeps in E. pose proof (flow_inv_keeps g f f' Hf E) as Hf'.
+    destruct track; cbn [fst]; (eapply Inv_flow; [exact Hi|reflexivity|reflexivity|reflexivity|exact Hf']).
+  - (* a failed read: the flow continues with the decoder state it reached; reasons and request unchanged *)
+    apply Inv_with_flow; [exact Hi|]. apply (flow_inv_keeps g f); [exact Hf|]. apply recv_body_after_err_keeps.
 Qed.
 
 Lemma do_write_body_inv s g input cap track sum :
